@@ -6,6 +6,7 @@ from cv.rules import events_of
 from props import common
 
 TITLE = "Work already stored is never stored again"
+TECHNIQUE = 'static analysis: guard analysis (dedup before write), effect-free region after the unchanged guard, provenance of the basis choice'
 EXPLANATION = (
     "Decided: (1) a block file is written only when the present set says the hash is absent, and the present set "
     "is initialised from a listing of the block directory when it is opened (which is what lets a resumed run skip "
